@@ -38,7 +38,7 @@ def plan(tier):
 
 def floors(tier):
     return {"nontrivial": 30, "held:additive": 30, "counter:jtj_checks": 80, "counter:hessian_checks": 80, "counter:hessian_exact": 30,
-            "counter:psd_checks": 80, "counter:fd_crosschecks": 60, "class:weights": 15, "class:weights-zero-mask": 5, "class:target_param": 10, "class:obs-permuted": 10}
+            "counter:psd_checks": 80, "counter:fd_crosschecks": 60, "class:weights": 15, "class:x0-ndarray-shared": 20, "counter:sibling_calls": 40, "class:weights-zero-mask": 5, "class:target_param": 10, "class:obs-permuted": 10}
 
 
 def run_case(rng, idx, tier, lane, ctx):
@@ -98,8 +98,12 @@ def run_case(rng, idx, tier, lane, ctx):
     Sobs = S[:, c.obs_idx, :][:, :, pidx]                     # (n, p, k)
     JTJ_ref = np.einsum("ij,ija,ijb->ab", W ** 2, Sobs, Sobs)
     # ---- jtj
+    if LC.share_caller_arrays(rng, c):
+        cls.append("x0-ndarray-shared")
     try:
         obj = LC.make_loss(c)
+        if c.x0_as_array:
+            counters["sibling_calls"] = LC.disturb_with_sibling(rng, c)
         with contextlib.redirect_stdout(io.StringIO()), np.errstate(all="ignore"):
             JTJ = np.asarray(obj.jtj(free), dtype=float)
         counters["jtj_checks"] += 1
